@@ -234,6 +234,26 @@ func (s *Svc) Tick(ctx context.Context, n int, cb func(ctx context.Context) (int
 	return sum, nil
 }
 
+// ZooErr is a concrete error type: a closure may declare it (a pointer to it) as its error result; its nil
+// pointer is "no error".
+type ZooErr struct{ Msg string }
+
+func (e *ZooErr) Error() string { return e.Msg }
+
+// ErrClosure invokes cb for i = 0..n-1 and reports each outcome ("nil" or the message).
+func (s *Svc) ErrClosure(ctx context.Context, n int, cb func(ctx context.Context, i int) error) (string, error) {
+	s.log(ctx, "ErrClosure", fmt.Sprint(n))
+	var out []string
+	for i := 0; i < n; i++ {
+		if err := cb(ctx, i); err != nil {
+			out = append(out, err.Error())
+		} else {
+			out = append(out, "nil")
+		}
+	}
+	return strings.Join(out, "|"), nil
+}
+
 // TimedClosure invokes cb once under a context of its own that expires after ms milliseconds and reports
 // what the invocation returned and how long it took.
 func (s *Svc) TimedClosure(ctx context.Context, ms int, cb func(ctx context.Context, i int, str string) (string, error)) (string, error) {
@@ -461,6 +481,7 @@ type Remote struct {
 	Tree        func(ctx context.Context, depth int) (int, error)
 	WithClosure func(ctx context.Context, n int, conc bool, cb func(ctx context.Context, i int, str string) (string, error)) ([]string, error)
 	Tick        func(ctx context.Context, n int, cb func(ctx context.Context) (int, error)) (int, error)
+	ErrClosure  func(ctx context.Context, n int, cb func(ctx context.Context, i int) *ZooErr) (string, error)
 	TimedClosure func(ctx context.Context, ms int, cb func(ctx context.Context, i int, str string) (string, error)) (string, error)
 	KeepClosure func(ctx context.Context, slot int, cb func(ctx context.Context, i int, str string) (string, error)) error
 	KeepAndGate func(ctx context.Context, slot int, gate int, cb func(ctx context.Context, i int, str string) (string, error)) error
